@@ -1,6 +1,8 @@
 """C10 - significant and bracketed durations locate threshold crossings exactly."""
 from fractions import Fraction
 
+import math
+
 import numpy as np
 from hypothesis import assume
 from hypothesis import strategies as st
@@ -9,17 +11,21 @@ import eqsig
 from eqsig import im
 
 from pbt import gen
-from pbt.core import clause
+from pbt.core import clause, enum_clause
 from pbt.ref import durations as ref
 
 PROPERTY = "C10"
 CLAUSES = []
 ASSUMPTIONS = [
-    "records: finite float64 (or integer-dtype / list variants through AccSignal), 2 <= n <= ~5000, non-zero samples have "
+    "records: finite float64 (or int64-dtype / list / strided / read-only variants; narrow integer dtypes and float32 records are "
+    "handled centrally, not here), 2 <= n <= ~5000 drawn by Hypothesis, laddered lengths 2000..300000 (thorough 2 000 000) in the "
+    "mid-range enumerations; non-zero samples have "
     "1e-60 <= |a| <= 1e10 so that squares, cubes, squared velocities and their scalings stay in the normal range (smaller generated "
     "values are flushed to 0 before the record is used)",
-    "the array-level entry points calc_sig_dur_vals / calc_significant_duration receive an ndarray (float or integer dtype); "
-    "a Python list there is outside 'records' (the code squares the argument), lists are passed through AccSignal only",
+    "the array-level entry points calc_sig_dur_vals / calc_significant_duration receive the same containers as AccSignal does "
+    "(ndarray of float or int64 dtype, strided / read-only view, Python list: the docstring says array-like)",
+    "the time step is handed over as a Python float, np.float64, np.float32 or a 0-d array of either precision; a single-precision "
+    "step is taken at its exact double value (sample i is at i*float(np.float32(dt)))",
     "precondition of the statement (some sample strictly between the fractions) is constructed: the fractions are drawn after "
     "the record, on either side of an achieved cumulative level with a relative gap >= 1e-6; a case in which the reference "
     "finds no such sample even with the thresholds widened by 1e-9 is classified 'precondition-fails' and not asserted",
@@ -28,16 +34,27 @@ ASSUMPTIONS = [
     "rounding of a running sum of n <= 5100 non-negative terms is <= n*eps = 1.2e-12 relative, three orders below the margin",
     "exact ties (clause ties) are asserted only where every operation is exact in binary floating point: dyadic records, "
     "dyadic fractions, rational measures (running sum of squares, user callables whose returned values are taken as given) "
-    "and a representable product fraction*final value (verified per case); Arias ties involve the irrational factor "
-    "pi/(2g) and are bracket-checked only",
+    "and a representable product fraction*final value (verified per case).  Arias involves the irrational factor pi/(2g): a tie "
+    "is asserted there only when a per-case proof succeeds that 27 floating-point evaluation orders (constant applied to the "
+    "running sum / to every panel / to every sample, three spellings of the constant and of the panel) x 2 threshold forms "
+    "(fraction*final, series/final) all classify every sample as the exact rational arithmetic does - in practice a fraction "
+    "2^-p meeting a level exactly, where fl(c*L) == 2^-p*fl(c*T); otherwise bracket only",
     "user-supplied measures: the reference applies the statement to the values the callable returns for the same signal "
-    "(the correctness of calc_cav / calc_isv / ... themselves is C09); callables are cumulative (non-decreasing, final "
-    "value > 0) and return an ndarray",
+    "(the correctness of calc_cav / calc_isv / ... themselves is C09); callables are CUMULATIVE, i.e. non-decreasing with a final "
+    "value > 0, and return an ndarray (the statement speaks of a cumulative intensity; for a series that is not monotone an "
+    "implementation that bisects for the two crossings is as correct as one that masks, so nothing is asserted for such a "
+    "callable - the former non-monotone measure 'wiggle' was removed for that reason)",
+    "when the statement's precondition is only ambiguously satisfied (a sample lies between the fractions only if the thresholds "
+    "are moved by 1e-9) nothing is asserted: the statement is conditional on the precondition",
     "prepended zeros: for trapezoid-type measures (Arias, CAV, ISV) the law is asserted for records that start with a zero "
     "sample, otherwise the new panel (0, a0) changes the cumulative intensity itself by a0^2*dt/2 and the statement's own "
     "definition gives a different answer; for running-sum measures it is asserted for every record",
-    "general (non power-of-two) amplitude factors and prepended zeros are asserted only for unambiguous cases; power-of-two "
-    "scaling and fraction nesting are asserted for every case (exact in floating point)",
+    "amplitude scaling (2^k and general alpha): the scaled record's result is compared with the reference of the unscaled record "
+    "(equality when unambiguous, the bracket otherwise); general alpha is skipped for the two measures that contain a comparison "
+    "with half the peak (count, gated), whose classification is scale-invariant only up to rounding; prepended zeros are asserted "
+    "only for unambiguous cases; fraction nesting for every case (an order statement)",
+    "bracketed duration with record and threshold scaled together: 2^k for every case (exact), general alpha only when no |a_i| "
+    "lies within 1e-9 (relative) of the threshold",
     "times: sample i is at i*dt; tolerance 4*eps*|t| on a time, 4*eps*end on a duration, 1e-12*(record length) for shifts",
     "deprecated AccSignal.generate_duration_stats: checked (sd_start, sd_end, t_595) only for records scaled so that "
     "max|a| <= 0.08 m/s2, i.e. below its smallest bracket threshold 0.01 g; above it the method's rms-acceleration lines "
@@ -63,12 +80,11 @@ def _m_count(sig):
     return np.cumsum(v > 0.5 * np.max(v))
 
 
-def _m_wiggle(sig):
-    """user lambda 3: a cumulative measure that is NOT monotone - running sum of |a| with twice the current sample
-    taken back (like a cumulative input energy, it rises overall but dips locally).  The statement's definition (first and
-    last sample strictly between the fractions) does not need monotonicity, and neither does the library's mask."""
+def _m_gated(sig):
+    """user lambda 3: running sum of a^2 over the samples whose |a| exceeds half the peak (float valued, non-decreasing, long
+    plateaus separated by jumps - the hard case for an implementation that searches a sorted series)."""
     v = np.abs(np.asarray(sig.values, dtype=float))
-    return np.cumsum(v) - 2.0 * v
+    return np.cumsum(np.where(v > 0.5 * np.max(v), v * v, 0.0))
 
 
 # name -> (type, callable passed as `im`)   type: 'rect' = running sum, 'trap' = running trapezoid
@@ -81,10 +97,27 @@ MEASURES = {
     "isv": ("trap", im.calc_isv),
     "cube": ("rect", _m_cube),
     "count": ("rect", _m_count),
-    "wiggle": ("rect", _m_wiggle),
+    "gated": ("rect", _m_gated),
 }
 ARRAY_LEVEL = ("sumsq", "deprecated")
-ALL_MEASURES = ["arias", "arias", "sumsq", "sumsq", "deprecated", "cav", "absacc", "isv", "cube", "count", "count", "wiggle", "wiggle"]
+ALL_MEASURES = ["arias", "arias", "sumsq", "sumsq", "deprecated", "cav", "absacc", "isv", "cube", "count", "count", "gated", "gated"]
+HALF_PEAK = ("count", "gated")   # contain a comparison with half the peak: scale-invariant only up to rounding
+DT_FORMS = ["py", "py", "py", "np64", "f32", "0d32", "0d64"]
+
+
+def _dt(case):
+    """-> (time step as handed to the library, its exact value as a Python float)."""
+    dt = case["dt"]
+    dtv = case.get("dtv", "py")
+    if dtv == "np64":
+        return np.float64(dt), dt
+    if dtv == "f32":
+        return np.float32(dt), float(np.float32(dt))
+    if dtv == "0d32":
+        return np.array(dt, dtype=np.float32), float(np.float32(dt))
+    if dtv == "0d64":
+        return np.array(dt, dtype=np.float64), dt
+    return dt, dt
 
 
 def _seen(spec, z0=False):
@@ -119,8 +152,8 @@ def _levels_float(a, measure):
     elif measure == "isv":
         v = _trap(a)
         c = _trap(v * v)
-    elif measure == "wiggle":
-        c = np.cumsum(ab) - 2.0 * ab
+    elif measure == "gated":
+        c = np.cumsum(np.where(ab > 0.5 * ab.max(), ab * ab, 0.0))
     else:
         raise ValueError(measure)
     total = c[-1]
@@ -154,7 +187,9 @@ def _sig_cases(draw, max_n=5000, measures=ALL_MEASURES, containers=True, laws=Fa
     assume(len(cand) > 0)
     n = len(a)
     case = {"rec": spec, "dt": draw(gen.dts(1e-4, 1.0)), "measure": measure,
-            "form": draw(st.sampled_from(["pos", "kw"]))}
+            "form": draw(st.sampled_from(["pos", "kw"])), "dtv": draw(st.sampled_from(DT_FORMS))}
+    if not laws and draw(st.integers(0, 3)) == 0:
+        case["hist"] = True   # afterwards: replace the object's values and ask again (a result kept on the object must not survive)
     if z0:
         case["z0"] = True
     use_default = draw(st.sampled_from([False] * 6 + [True])) and bool(np.any((lev > 0.05 * (1 + 1e-6)) & (lev < 0.95 * (1 - 1e-6))))
@@ -212,9 +247,8 @@ def _sig_cases(draw, max_n=5000, measures=ALL_MEASURES, containers=True, laws=Fa
 # calling the library / reference values
 
 
-def _call_sig(ctx, measure, arr, asig, dt, s, e, se, form="kw", defaults=False, strict_call=True):
-    """One call of the entry point that belongs to `measure`.  strict_call=False: an IndexError is tolerated
-    (returns the string 'raised'); used only when the statement's precondition does not robustly hold."""
+def _call_sig(ctx, measure, arr, asig, dt, s, e, se, form="kw", defaults=False):
+    """One call of the entry point that belongs to `measure` (dt: the time step as handed to the library)."""
     fn = MEASURES[measure][1]
     if measure == "sumsq":
         f, lead = im.calc_sig_dur_vals, (arr, dt)
@@ -249,12 +283,7 @@ def _call_sig(ctx, measure, arr, asig, dt, s, e, se, form="kw", defaults=False, 
             args, kw = lead + (s, e, fn, se), {}
         else:
             args, kw = lead, {"start": s, "end": e, "im": fn, "se": se}
-    if strict_call:
-        return ctx.lib(f, *args, **kw)
-    try:
-        return f(*args, **kw)
-    except IndexError:
-        return "raised"
+    return ctx.lib(f, *args, **kw)
 
 
 def _representable(p):
@@ -286,7 +315,10 @@ def _ref_values(ctx, measure, a, dt, asig, exact, s, e):
                 ok = False
                 break
     elif measure == "arias":
-        return ref.arias_exact(a, dt), ref.MARGIN  # irrational factor pi/(2g): ties are not decidable in floating point
+        # irrational factor pi/(2g): a tie is decidable only when every floating-point evaluation order reproduces the exact
+        # classification of every sample (per-case proof, see ASSUMPTIONS; typically a fraction 2^-p on a level)
+        vals = ref.arias_exact(a, dt)
+        return vals, (0 if ref.arias_ties_robust(a, dt, s, e, vals) else ref.MARGIN)
     else:
         out = np.asarray(ctx.lib(fn, asig))
         ctx.shape(out, (len(a),), "user measure")
@@ -300,12 +332,20 @@ def _t(i, dt):
     return LD(i) * LD(dt)
 
 
+def _is_pair(x):
+    """se=True returns the start and end times as a pair (tuple, list or array of two)."""
+    try:
+        return len(x) == 2 and all(v is None or np.ndim(v) == 0 for v in x)
+    except TypeError:
+        return False
+
+
 def _assert_result(ctx, bt, dt, n, got_se, got_dur, what):
     """Compare library output with the reference bracket `bt` (ref.Between)."""
     rec_len = float(_t(n - 1, dt))
     t0 = t1 = None
     if got_se is not None:
-        ctx.check(isinstance(got_se, (tuple, list)) and len(got_se) == 2, "%s: se=True returned %r" % (what, got_se))
+        ctx.check(_is_pair(got_se), "%s: se=True returned %r" % (what, got_se))
         t0, t1 = float(got_se[0]), float(got_se[1])
         ctx.check(0 <= t0 <= t1 <= rec_len * (1 + 2 * EPS),
                   "%s: not 0 <= start <= end <= duration: start=%r end=%r duration=%r" % (what, t0, t1, rec_len))
@@ -343,12 +383,12 @@ def _check_sig(case, ctx, exact):
     spec = case["rec"]
     arg, a = _seen(spec, case.get("z0", False))
     n = len(a)
-    dt = case["dt"]
+    dt_arg, dt = _dt(case)
     measure = case["measure"]
     defaults = bool(case.get("defaults"))
     s, e = (0.05, 0.95) if defaults else (case["s"], case["e"])
     form = case.get("form", "kw")
-    ctx.cls("m=" + measure, "kind=" + spec["k"], gen.size_class(n), "form=" + form)
+    ctx.cls("m=" + measure, "kind=" + spec["k"], gen.size_class(n), "form=" + form, "dt=" + case.get("dtv", "py"))
     if spec.get("as"):
         ctx.cls("as=" + spec["as"])
     if defaults:
@@ -356,9 +396,9 @@ def _check_sig(case, ctx, exact):
     asig = None
     arr = None
     if measure in ARRAY_LEVEL:
-        arr = np.array(arg)  # integer dtype is kept
+        arr = arg  # the container as it is: ndarray (float / int64), strided or read-only view, list
     else:
-        asig = ctx.lib(eqsig.AccSignal, arg, dt)
+        asig = ctx.lib(eqsig.AccSignal, arg, dt_arg)
     vals, margin = _ref_values(ctx, measure, a, dt, asig, exact, s, e)
     bt = ref.Between(vals, s, e, margin)
     if exact:
@@ -367,34 +407,46 @@ def _check_sig(case, ctx, exact):
         if tie:
             ctx.cls("tie")
             if margin == 0 and bt.nonstrict != bt.strict:
-                ctx.cls("tie-decisive")
+                ctx.cls("tie-decisive", "tie-decisive-" + ("arias" if measure == "arias" else "rational"))
+    _sig_assert(ctx, bt, measure, arr, asig, dt_arg, dt, n, s, e, form, defaults)
+    if case.get("hist") and asig is not None and n >= 4 and np.asarray(asig.values).dtype.kind == "f":
+        # the result belongs to the record the signal holds NOW: replace the values (same length) and ask again
+        b = np.array(a[::-1]) * 0.5
+        b[n // 3] += 0.25 * float(np.max(np.abs(a)))
+        ctx.lib(asig.reset_values, b)
+        vals2, margin2 = _ref_values(ctx, measure, b, dt, asig, False, s, e)
+        bt2 = ref.Between(vals2, s, e, margin2)
+        ctx.cls("after-reset-values")
+        _sig_assert(ctx, bt2, measure, arr, asig, dt_arg, dt, n, s, e, form, defaults, tag=" after reset_values")
+
+
+def _sig_assert(ctx, bt, measure, arr, asig, dt_arg, dt, n, s, e, form, defaults, tag=""):
+    """Call the entry point of `measure` with se=True and se=False and compare with the reference bracket `bt`."""
     if bt.fails:
         ctx.cls("precondition-fails")
         return
-    strict_call = bt.holds
-    if not strict_call:
+    if not bt.holds:
+        # a sample lies between the fractions only if the thresholds are moved by the margin: the statement is conditional on
+        # its precondition, so nothing is promised here
         ctx.cls("precondition-ambiguous")
+        ctx.amb()
+        return
     got_se = None
     if measure != "deprecated":
-        got_se = _call_sig(ctx, measure, arr, asig, dt, s, e, True, form, defaults, strict_call)
-    got_dur = _call_sig(ctx, measure, arr, asig, dt, s, e, False, form, defaults, strict_call)
-    if got_se == "raised" or got_dur == "raised":
-        ctx.amb()
-        ctx.check((got_se in ("raised", None)) and got_dur == "raised",
-                  "se=True and se=False disagree on whether a sample lies between the fractions")
-        return
+        got_se = _call_sig(ctx, measure, arr, asig, dt_arg, s, e, True, form, defaults)
+    got_dur = _call_sig(ctx, measure, arr, asig, dt_arg, s, e, False, form, defaults)
     if bt.ambiguous:
         ctx.cls("ambiguous")
-    else:
+    elif not tag:
         i0, i1 = bt.inner
         ctx.nt(0 < i1 - i0 < n - 1)
         ctx.cls("start>0" if i0 > 0 else "start=0")
         if i1 == i0:
             ctx.cls("single-sample")
-    _assert_result(ctx, bt, dt, n, got_se, got_dur, "%s(s=%r, e=%r)" % (measure, s, e))
+    _assert_result(ctx, bt, dt, n, got_se, got_dur, "%s(s=%r, e=%r)%s" % (measure, s, e, tag))
     if measure == "deprecated":
         # the deprecated alias must agree with its replacement
-        d2 = ctx.lib(im.calc_sig_dur_vals, arr, dt, start=s, end=e)
+        d2 = ctx.lib(im.calc_sig_dur_vals, arr, dt_arg, start=s, end=e)
         ctx.check(float(d2) == float(got_dur), "calc_significant_duration %r != calc_sig_dur_vals %r" % (got_dur, d2))
 
 
@@ -420,7 +472,7 @@ def definition(case, ctx):
 # ---------------------------------------------------------------------------
 # clause 1b: exact ties (strictness of both inequalities)
 
-TIE_MEASURES = ["sumsq", "sumsq", "deprecated", "cav", "absacc", "cube", "count", "isv", "arias"]
+TIE_MEASURES = ["sumsq", "sumsq", "deprecated", "cav", "absacc", "cube", "count", "isv", "arias", "arias", "gated"]
 
 
 def _values_exact(a, dt, measure):
@@ -459,6 +511,9 @@ def _values_exact(a, dt, measure):
     if measure == "isv":
         v = trap(fa)
         return trap([x * x for x in v])
+    if measure == "gated":
+        mx = max(ab)
+        return run([(x * x if x > mx / 2 else Fraction(0)) for x in ab])
     raise ValueError(measure)
 
 
@@ -483,7 +538,7 @@ def _tie_cases(draw):
     if draw(st.integers(0, 7)) == 0:
         spec["as"] = "list"
     measure = draw(st.sampled_from(TIE_MEASURES))
-    if measure in ("sumsq", "deprecated", "cube", "count") and draw(st.booleans()):
+    if measure in ("sumsq", "deprecated", "cube", "count", "gated") and draw(st.booleans()):
         dt = draw(gen.dts(1e-4, 1.0))  # dt does not enter these measures
     else:
         dt = 2.0 ** draw(st.integers(-10, 2))
@@ -491,6 +546,13 @@ def _tie_cases(draw):
     m2 = draw(st.integers(den // 2, den - 1))
     assume(m1 < m2)
     s, e = m1 / den, m2 / den
+    if measure == "arias":
+        # the irrational constant: a tie is decidable when the fraction is a power of two (see ASSUMPTIONS); the other fraction
+        # is a power of two as well (1/2) or sits half a level away from every level (no tie there)
+        p_max = max(2, den.bit_length() - 1)
+        s = draw(st.sampled_from([2.0 ** -draw(st.integers(2, p_max)), (m1 - 0.5) / den]))
+        e = draw(st.sampled_from([0.5, (m2 + 0.5) / den]))
+        assume(0 < s < e < 1)
     _, a = _seen(spec)
     assume(len(a) >= 3 and np.any(a != 0))
     vals = _values_exact(a, dt, measure)
@@ -504,11 +566,12 @@ def _tie_cases(draw):
 @clause(CLAUSES, "ties", _tie_cases(), quick=800, thorough=3000,
         rule="exactly computable cases: (a) 2^q equal-magnitude samples (+-2^-j) separated by zero runs, (b) small dyadic / few-level "
              "records (n <= 46); dyadic dt; fractions m/2^p so that fraction*final value is exact and frequently coincides with an "
-             "achieved level; measures: running sum of squares, deprecated alias, CAV, integral |a|, sum|a|^3, exceedance count, ISV "
-             "(asserted exactly) and Arias (bracket only); non-trivial = unambiguous and 0 < duration < record length",
+             "achieved level; measures: running sum of squares, deprecated alias, CAV, integral |a|, sum|a|^3, exceedance count, gated "
+             "energy, ISV (asserted exactly) and Arias (fractions 2^-p / 1/2 / half a level off; asserted exactly when the per-case "
+             "evaluation-order proof succeeds); non-trivial = unambiguous and 0 < duration < record length",
         oracle="reference model in exact rational arithmetic (fractions.Fraction): a sample whose cumulative value EQUALS a fraction of "
                "the final value is not strictly between; index equality, no margin, when the per-case exactness proof succeeds",
-        require={"tie-decisive": 0.25, "exact": 0.6}, min_nontrivial=0.4)
+        require={"tie-decisive": 0.25, "exact": 0.6, "tie-decisive-arias": 0.03}, min_nontrivial=0.4)
 def ties(case, ctx):
     ctx.cls("fam=" + case.get("fam", "?"))
     _check_sig(case, ctx, exact=True)
@@ -522,7 +585,8 @@ def ties(case, ctx):
         rule="same generator as `definition` (float ndarray records, 2 of 3 with a leading zero sample) plus a power-of-two factor "
              "2^k (|k|<=8), a general factor alpha, kz in 1..60 prepended zeros and a wider fraction pair (s2<=s, e2>=e); "
              "non-trivial = unambiguous and 0 < duration < record length",
-        oracle="metamorphic: 2^k scaling -> identical (==); alpha scaling -> identical when unambiguous; kz zeros prepended -> start, end "
+        oracle="metamorphic against the reference of the unscaled record: 2^k and alpha scaling -> the same start / end / duration "
+               "(equality when unambiguous, the bracket otherwise); kz zeros prepended -> start, end "
                "shift by kz*dt and duration unchanged (1e-12 of record length; running-sum measures always, trapezoid measures when the "
                "record starts at 0; unambiguous cases); nested fractions -> start2<=start, end2>=end, duration2>=duration (exact)",
         require={"prepend-checked": 0.4, "m=arias": 0.1}, min_nontrivial=0.5)
@@ -530,21 +594,22 @@ def laws(case, ctx):
     spec = case["rec"]
     _, a = _seen(spec, case.get("z0", False))
     n = len(a)
-    dt = case["dt"]
+    dt_arg, dt = _dt(case)
     measure = case["measure"]
     s, e = (0.05, 0.95) if case.get("defaults") else (case["s"], case["e"])
     mtype = MEASURES[measure][0]
-    ctx.cls("m=" + measure, "kind=" + spec["k"], gen.size_class(n))
+    ctx.cls("m=" + measure, "kind=" + spec["k"], gen.size_class(n), "dt=" + case.get("dtv", "py"))
 
     def run(arr, s_, e_):
-        asig = None if measure in ARRAY_LEVEL else ctx.lib(eqsig.AccSignal, arr, dt)
+        asig = None if measure in ARRAY_LEVEL else ctx.lib(eqsig.AccSignal, arr, dt_arg)
         got_se = None
         if measure != "deprecated":
-            got_se = _call_sig(ctx, measure, arr, asig, dt, s_, e_, True)
+            got_se = _call_sig(ctx, measure, arr, asig, dt_arg, s_, e_, True)
+            ctx.check(_is_pair(got_se), "se=True returned %r" % (got_se,))
             got_se = (float(got_se[0]), float(got_se[1]))
-        return got_se, float(_call_sig(ctx, measure, arr, asig, dt, s_, e_, False))
+        return got_se, float(_call_sig(ctx, measure, arr, asig, dt_arg, s_, e_, False))
 
-    asig0 = None if measure in ARRAY_LEVEL else ctx.lib(eqsig.AccSignal, a, dt)
+    asig0 = None if measure in ARRAY_LEVEL else ctx.lib(eqsig.AccSignal, a, dt_arg)
     vals, margin = _ref_values(ctx, measure, a, dt, asig0, False, s, e)
     bt = ref.Between(vals, s, e, margin)
     if not bt.holds:
@@ -557,14 +622,16 @@ def laws(case, ctx):
         i0, i1 = bt.inner
         ctx.nt(0 < i1 - i0 < n - 1)
     se0, d0 = run(a, s, e)
-    # (1) amplitude scaling
+    _assert_result(ctx, bt, dt, n, se0, d0, "%s(s=%r, e=%r)" % (measure, s, e))
+    # (1) amplitude scaling: the result is that of the unscaled record (the reference classification is scale invariant: exactly
+    # for 2^k, to 2 ulp - far inside the 1e-9 margin - for a general factor)
     k = case["k2"]
     se1, d1 = run(a * 2.0 ** k, s, e)
-    ctx.check(se1 == se0 and d1 == d0, "result changed by amplitude scaling 2^%d: %r/%r vs %r/%r" % (k, se1, d1, se0, d0))
+    _assert_result(ctx, bt, dt, n, se1, d1, "%s of the record scaled by 2^%d" % (measure, k))
     al = case["alpha"]
-    if not bt.ambiguous and measure != "count":  # the exceedance count is scale-invariant only up to rounding of alpha*a
+    if measure not in HALF_PEAK:  # those contain a comparison with half the peak: scale-invariant only up to rounding of alpha*a
         se1, d1 = run(a * al, s, e)
-        ctx.check(se1 == se0 and d1 == d0, "result changed by amplitude scaling %r: %r/%r vs %r/%r" % (al, se1, d1, se0, d0))
+        _assert_result(ctx, bt, dt, n, se1, d1, "%s of the record scaled by %r" % (measure, al))
     # (2) prepended zeros
     kz = case["kz"]
     if (mtype == "rect" or a[0] == 0) and not bt.ambiguous:
@@ -613,13 +680,14 @@ def _brac_cases(draw):
             t = mx * (1 + draw(_unit)) + (1.0 if mx == 0 else 0.0)
         thr.append(float(t))
         modes.append(mode)
-    return {"rec": spec, "dt": draw(gen.dts(1e-4, 1.0)), "thr": thr, "modes": modes, "k2": draw(st.integers(-8, 8))}
+    return {"rec": spec, "dt": draw(gen.dts(1e-4, 1.0)), "thr": thr, "modes": modes, "k2": draw(st.integers(-8, 8)),
+            "alpha": draw(gen.scalars()), "dtv": draw(st.sampled_from(DT_FORMS))}
 
 
 def _brac_expected(ctx, a, dt, thr, d, se, what):
     n = len(a)
-    fl = ref.scan_exceeding(np.abs(a).tolist(), thr)
-    ctx.check(isinstance(se, (tuple, list)) and len(se) == 2, "%s: se=True returned %r" % (what, se))
+    fl = ref.scan_exceeding(np.abs(a).tolist() if len(a) <= 6000 else np.abs(a), thr)
+    ctx.check(_is_pair(se), "%s: se=True returned %r" % (what, se))
     if fl is None:
         ctx.check(d is not None and np.ndim(d) == 0 and d == 0, "%s: no sample exceeds, expected 0, got %r" % (what, d))
         ctx.check(se[0] is None and se[1] is None, "%s: no sample exceeds, expected (None, None), got %r" % (what, se))
@@ -638,26 +706,35 @@ def _brac_expected(ctx, a, dt, thr, d, se, what):
         rule="records of all kinds (n 2..5000, float/int/list); two thresholds each from {0, |a_i| of a drawn sample, the double just "
              "below it, U(0,1)*max|a|, max|a|, above max|a|}; non-trivial = for some threshold 0 < duration < record length",
         oracle="reference model: front/back scan for |a_i| > thr (exact comparison, no arithmetic), times i*dt (4 eps); none -> 0 and "
-               "(None, None); metamorphic: non-increasing in thr (exact), record and threshold scaled by 2^k -> identical (==); "
+               "(None, None); metamorphic: non-increasing in thr (exact), record and threshold scaled by 2^k (always) or by a general "
+               "factor (no |a_i| within 1e-9 of thr) -> the same first / last sample; "
                "differential: deprecated calc_bracketed_duration == calc_brac_dur",
         require={"none-exceed": 0.1, "thr=sample": 0.2, "thr=zero": 0.1, "some-exceed": 0.5}, min_nontrivial=0.3)
 def bracketed(case, ctx):
     spec = case["rec"]
     arg, a = _seen(spec)
     n = len(a)
-    dt = case["dt"]
-    ctx.cls("kind=" + spec["k"], gen.size_class(n))
+    dt_arg, dt = _dt(case)
+    ctx.cls("kind=" + spec["k"], gen.size_class(n), "dt=" + case.get("dtv", "py"))
     if spec.get("as"):
         ctx.cls("as=" + spec["as"])
-    asig = ctx.lib(eqsig.AccSignal, arg, dt)
-    k = case.get("k2", 0)
-    asig_k = ctx.lib(eqsig.AccSignal, a * 2.0 ** k, dt)
+    asig = ctx.lib(eqsig.AccSignal, arg, dt_arg)
+    _brac_checks(ctx, asig, a, dt_arg, dt, case["thr"], case.get("modes"), case.get("k2", 0), case.get("alpha"))
+
+
+def _brac_checks(ctx, asig, a, dt_arg, dt, thrs, modes, k, alpha):
+    """calc_brac_dur of the signal `asig` (holding the record `a`) at every threshold of `thrs`: definition, (None, None) / 0,
+    deprecated alias, record and threshold scaled together, non-increasing in the threshold."""
+    n = len(a)
+    asig_k = ctx.lib(eqsig.AccSignal, a * 2.0 ** k, dt_arg)
+    asig_al = ctx.lib(eqsig.AccSignal, a * alpha, dt_arg) if alpha else None
+    ab = np.abs(a)
     res = []
-    for j, thr in enumerate(case["thr"]):
-        ctx.cls("thr=" + case["modes"][j] if "modes" in case else None)
+    for j, thr in enumerate(thrs):
+        ctx.cls("thr=" + modes[j] if modes else None)
         thr_arg = 0 if (thr == 0 and j == 0) else thr  # integer 0 as well as 0.0
         d = ctx.lib(im.calc_brac_dur, asig, thr_arg)
-        se = ctx.lib(im.calc_brac_dur, asig, thr_arg, True) if j == 0 else ctx.lib(im.calc_brac_dur, asig, threshold=thr_arg, se=True)
+        se = ctx.lib(im.calc_brac_dur, asig, thr_arg, True) if j % 2 == 0 else ctx.lib(im.calc_brac_dur, asig, threshold=thr_arg, se=True)
         fl = _brac_expected(ctx, a, dt, thr, d, se, "calc_brac_dur(thr=%r)" % thr)
         if fl is None:
             ctx.cls("none-exceed")
@@ -670,18 +747,25 @@ def bracketed(case, ctx):
                 ctx.cls("one-exceeds")
         dd = ctx.lib(im.calc_bracketed_duration, asig, thr_arg)
         ctx.check(dd == d, "deprecated calc_bracketed_duration %r != calc_brac_dur %r" % (dd, d))
-        # record and threshold scaled together
+        # record and threshold scaled together: 2^k commutes with every comparison (exact) ...
         dk = ctx.lib(im.calc_brac_dur, asig_k, thr * 2.0 ** k)
         sek = ctx.lib(im.calc_brac_dur, asig_k, thr * 2.0 ** k, se=True)
-        ctx.check(dk == d and tuple(sek) == tuple(se),
-                  "scaling record and threshold by 2^%d changed the result: %r/%r vs %r/%r" % (k, dk, sek, d, se))
+        _brac_expected(ctx, a, dt, thr, dk, sek, "calc_brac_dur of record and threshold %r scaled by 2^%d" % (thr, k))
+        # ... a general factor only when no sample sits within the margin of the threshold (alpha*a_i and alpha*thr are rounded)
+        if asig_al is not None and not np.any((np.abs(ab - thr) <= 1e-9 * thr) & (ab != thr)):
+            ctx.cls("general-alpha")
+            ta = abs(alpha) * thr
+            da = ctx.lib(im.calc_brac_dur, asig_al, ta)
+            sea = ctx.lib(im.calc_brac_dur, asig_al, ta, se=True)
+            _brac_expected(ctx, a, dt, thr, da, sea, "calc_brac_dur of record and threshold %r scaled by %r" % (thr, alpha))
         res.append((thr, float(d), se))
     # non-increasing in the threshold
-    (ta, da, sa), (tb, db, sb) = sorted(res, key=lambda r: r[0])
-    ctx.check(da >= db, "bracketed duration increased with the threshold: thr %r -> %r, thr %r -> %r" % (ta, da, tb, db))
-    if sb[0] is not None:
-        ctx.check(sa[0] is not None and sa[0] <= sb[0] and sa[1] >= sb[1],
-                  "bracket at the higher threshold %r is not inside the bracket at %r: %r vs %r" % (tb, ta, sb, sa))
+    res.sort(key=lambda r: r[0])
+    for (ta, da, sa), (tb, db, sb) in zip(res[:-1], res[1:]):
+        ctx.check(da >= db, "bracketed duration increased with the threshold: thr %r -> %r, thr %r -> %r" % (ta, da, tb, db))
+        if sb[0] is not None:
+            ctx.check(sa[0] is not None and sa[0] <= sb[0] and sa[1] >= sb[1],
+                      "bracket at the higher threshold %r is not inside the bracket at %r: %r vs %r" % (tb, ta, tuple(sb), tuple(sa)))
 
 
 # ---------------------------------------------------------------------------
@@ -728,3 +812,271 @@ def deprecated_stats(case, ctx):
     else:
         ctx.nt(0 < bt.inner[1] - bt.inner[0] < n - 1)
     _assert_result(ctx, bt, dt, n, (asig.sd_start, asig.sd_end), asig.t_595, "generate_duration_stats")
+
+
+# ---------------------------------------------------------------------------
+# mid-range sizes (DESIGN 8.5): a code path that exists only inside a window of record lengths.  Deterministic enumerations;
+# lengths from gen.size_ladder (one per logarithmic bin, placed by VERIF_SEED, plus lengths aimed at the integer literals of the
+# tree under test); records, fractions and thresholds are a pure function of the case.  The outputs are two numbers, but they depend
+# on the whole series: several fraction pairs / thresholds per record put the first and the last qualifying sample into many
+# different stretches of the record.
+
+MID_KINDS = ["quake", "sines", "walk", "noise"]
+MID_CONTAINERS = ["ndarray", "ndarray", "ndarray", "list", "view", "negstride", "readonly", "int"]
+MID_MEASURES = ["arias", "sumsq", "deprecated", "cav", "absacc", "isv", "cube", "count", "gated", "stats"]
+_S_MODES = ["mid", "u", "u", "above-prev", "below-cur"]
+_E_MODES = ["mid", "u", "u", "below-next", "above-cur"]
+
+
+def _hu(*parts):
+    """Uniform [0,1) from a hash of (VERIF_SEED, parts)."""
+    return (gen._h(gen.run_seed(), "c10", *parts) % 10 ** 9) / 1e9
+
+
+def _sd(*parts):
+    return int(gen._h(gen.run_seed(), "c10seed", *parts) % (2 ** 31 - 1))
+
+
+def _pick(seq, *parts):
+    return seq[int(_hu(*parts) * len(seq)) % len(seq)]
+
+
+def _deal(cases, shard, nshards):
+    order = sorted(range(len(cases)), key=lambda i: -float(cases[i].get("cost", 0)))
+    for rank, i in enumerate(order):
+        if rank % nshards == shard:
+            c = dict(cases[i])
+            c.pop("cost", None)
+            yield c
+
+
+def _mid_record(n, seed, kind):
+    """Ordinary data that keep an error visible: no trailing all-zero stretch, non-zero mean, every stretch different."""
+    rs = np.random.RandomState(seed)
+    t = np.arange(n, dtype=float)
+    amp = 10.0 ** rs.uniform(-2.0, 1.5)
+    if kind == "quake":
+        x = (t + 1.0) / n
+        env = x ** 2 * np.exp(-5.0 * x)
+        a = rs.standard_normal(n) * (0.1 + env / env.max()) + 0.004
+    elif kind == "sines":
+        a = np.full(n, 0.013)
+        for _ in range(3):
+            a = a + rs.uniform(0.2, 1.0) * np.sin(2 * math.pi * rs.uniform(3.0, n / 9.0) * t / n + rs.uniform(0, 6.28))
+    elif kind == "walk":
+        a = np.cumsum(rs.standard_normal(n)) / math.sqrt(n) + 0.05 * rs.standard_normal(n) + 0.02
+    else:
+        a = rs.standard_normal(n) * (1.0 + 0.5 * np.sin(t * (7.0 / n))) + 0.006
+    return a * amp
+
+
+def _mid_container(a, how):
+    if how == "int":
+        return np.array(np.round(a * (1000.0 / max(1e-300, float(np.max(np.abs(a)))))), dtype=np.int64)
+    if how == "ndarray":
+        return a
+    return gen.as_container({"as": how}, a)
+
+
+def _mid_sizes(tier, tag, count_q, count_t, hi_q=300000, hi_t=2000000, lo=2000):
+    """Laddered lengths + one anchor just above the nominal end (a window that opens anywhere below the end is entered)."""
+    if tier == "quick":
+        top = int(hi_q * (1 + 0.1 * _hu("top", tag)))
+        return sorted(set(gen.size_ladder(lo, hi_q, count_q, "c10:" + tag)) | {top})
+    top = int(hi_t * (1 + 0.05 * _hu("top:t", tag)))
+    return sorted(set(gen.size_ladder(lo, hi_t, count_t, "c10:t:" + tag, mined_limit=16)) | set(gen.ladder(lo, hi_q, count_q, "c10:" + tag)) | {top})
+
+
+def _mid_margin(n):
+    """Margin of the strict comparisons for a record of n samples: 1e-9, or twice the worst-case rounding of two running sums of n
+    non-negative terms (n*u each, u = eps/2) when that is larger (n > 1.1e6)."""
+    return max(ref.MARGIN, 4 * EPS * n)
+
+
+def _place(lev, uj, us, ue, ms, me, r1, r2):
+    """Fraction pair aimed at a first sample <= j <= a last sample (the deterministic twin of the drawing in _sig_cases)."""
+    n = len(lev)
+    cand = np.flatnonzero((lev > 1e-6) & (lev < 1 - 2e-6))
+    if not len(cand):
+        return None
+    j = int(cand[min(len(cand) - 1, int(uj * len(cand)))])
+    lj = float(lev[j])
+    i_s = int(us * (j + 1))
+    prev, cur = (float(lev[i_s - 1]) if i_s > 0 else 0.0), float(lev[i_s])
+    s = {"mid": 0.5 * (prev + cur), "u": prev + r1 * (cur - prev), "above-prev": prev * (1 + 3e-9), "below-cur": cur * (1 - 3e-9)}[ms]
+    s = min(max(s, 1e-12), lj * (1 - 1e-6))
+    i_e = j + int(ue * (n - 1 - j))
+    cur, nxt = float(lev[i_e]), float(lev[i_e + 1])
+    e = {"mid": 0.5 * (cur + nxt), "u": cur + r2 * (nxt - cur), "below-next": nxt * (1 - 3e-9), "above-cur": cur * (1 + 3e-9)}[me]
+    e = max(min(e, 1 - 1e-12), lj * (1 + 1e-6))
+    return float(s), float(e)
+
+
+def _mid_sig_cases(tier):
+    quick = tier == "quick"
+    cases = []
+    dts = [0.001, 0.002, 0.004, 0.005, 0.01, 0.02, 0.05]
+    npairs = 6 if quick else 10
+    for i, n in enumerate(_mid_sizes(tier, "sig", 14, 36)):
+        for m in MID_MEASURES:
+            how = _pick(MID_CONTAINERS, "how", i, m)
+            if how == "list" and n > 60000:
+                how = "readonly"
+            if m == "stats":
+                how = "ndarray"
+            pairs = [[round(_hu("p", i, m, q, c), 6) for c in range(3)] + [_pick(_S_MODES, "ps", i, m, q), _pick(_E_MODES, "pe", i, m, q)]
+                     + [round(_hu("r", i, m, q, c), 6) for c in range(2)] for q in range(npairs)]
+            cases.append({"n": int(n), "seed": _sd("sig", i, m), "kind": _pick(MID_KINDS, "kind", i, m), "measure": m, "as": how,
+                          "dt": _pick(dts, "dt", i, m) if _hu("dtk", i, m) < 0.6 else round(10 ** (-4 + 3.5 * _hu("dtv", i, m)), 7),
+                          "dtv": _pick(DT_FORMS, "dtf", i, m), "form": _pick(["pos", "kw"], "form", i, m), "pairs": pairs,
+                          "cost": n * (2 if m in ("isv", "count", "gated") else 1)})
+    return cases
+
+
+def _mid_sig_enum(tier, shard, nshards):
+    return _deal(_mid_sig_cases(tier), shard, nshards)
+
+
+@enum_clause(CLAUSES, "mid-range", _mid_sig_enum,
+             rule="record lengths gen.size_ladder(2000, 300000, 14) + one just above 300000 (thorough: to 2 000 000, 36 + 14 rungs; plus lengths "
+                  "aimed at the integer literals of the tree under test) x every entry point / measure (Arias, running sum of squares, deprecated "
+                  "alias, CAV, integral |a|, ISV, sum|a|^3, exceedance count, gated energy, AccSignal.generate_duration_stats); noise x envelope / "
+                  "sines / walk / modulated noise; container, dt and its form, call form by hash; per record 6 (thorough 10) fraction pairs whose "
+                  "first and last qualifying samples are aimed at hash-chosen positions all over the record (mid-gap, uniform, 3e-9 outside a level) "
+                  "+ the defaults 5-95 %; then the object's values are replaced and two pairs asked again",
+             oracle="as definition: long-double running sums over the WHOLE record (vectorised) + first / last sample strictly between the thresholds "
+                    "moved by +-max(1e-9, 4 eps n); equality (4 eps) when unambiguous, bracket otherwise; se=False == end - start",
+             exhaustive_note="the laddered lengths of the run's VERIF_SEED", quick_shards=4)
+def mid_range(case, ctx):
+    n = int(case["n"])
+    measure = case["measure"]
+    a0 = _mid_record(n, case["seed"], case["kind"])
+    dt_arg, dt = _dt(case)
+    ctx.cls("m=" + measure, "kind=" + case["kind"], "as=" + case["as"], "dt=" + case["dtv"], "n>50000" if n > 50000 else "n<=50000")
+    if measure == "stats":
+        _mid_stats(ctx, a0, dt_arg, dt)
+        return
+    arg = _mid_container(a0, case["as"])
+    a = np.array(arg, dtype=float)
+    form = case["form"]
+    asig = arr = None
+    if measure in ARRAY_LEVEL:
+        arr = arg
+    else:
+        asig = ctx.lib(eqsig.AccSignal, arg, dt_arg)
+    margin = _mid_margin(n)
+
+    def round_of_checks(rec, pairs, tag):
+        lev = _levels_float(rec, measure)
+        if lev is None:
+            return
+        vals, _m = _ref_values(ctx, measure, rec, dt, asig, False, 0.05, 0.95)
+        todo = [(_place(lev, *p), False) for p in pairs] + [((0.05, 0.95), True)]
+        for k, (se_, defaults) in enumerate(todo):
+            if se_ is None:
+                continue
+            s, e = se_
+            bt = ref.Between(vals, s, e, margin)
+            _sig_assert(ctx, bt, measure, arr, asig, dt_arg, dt, len(rec), s, e, form if k % 2 == 0 else ("kw" if form == "pos" else "pos"),
+                        defaults, tag=tag)
+
+    round_of_checks(a, case["pairs"], "")
+    if asig is not None and np.asarray(asig.values).dtype.kind == "f":
+        # the result belongs to the record the signal holds NOW
+        b = np.array(a[::-1]) * 0.5 + 0.1 * _mid_record(n, case["seed"] + 1, "noise") * (float(np.max(np.abs(a))) / 40.0)
+        ctx.lib(asig.reset_values, b)
+        ctx.cls("after-reset-values")
+        round_of_checks(b, case["pairs"][:2], " after reset_values")
+
+
+def _mid_stats(ctx, a, dt_arg, dt):
+    """Deprecated AccSignal.generate_duration_stats on a long record (scaled below its smallest bracket threshold, see ASSUMPTIONS)."""
+    n = len(a)
+    mx = float(np.max(np.abs(a)))
+    a = a * 2.0 ** int(np.floor(np.log2(0.08 / mx)))
+    if not np.max(np.abs(a)) <= 0.08:
+        a = a * 0.5
+    bt = ref.Between(ref.running_sum_of_squares_ld(a), 0.05, 0.95, _mid_margin(n))
+    if not bt.holds:
+        ctx.cls("precondition-fails")
+        return
+    asig = ctx.lib(eqsig.AccSignal, a, dt_arg)
+    ctx.lib(asig.generate_duration_stats)
+    if bt.ambiguous:
+        ctx.cls("ambiguous")
+    else:
+        ctx.nt(0 < bt.inner[1] - bt.inner[0] < n - 1)
+    _assert_result(ctx, bt, dt, n, (asig.sd_start, asig.sd_end), asig.t_595, "generate_duration_stats (n=%d)" % n)
+
+
+# ---- bracketed duration at mid-range lengths
+
+_BRAC_MODES = ["zero", "max", "below-max", "kth", "kth", "kth", "sample", "sample", "below-sample", "below-sample", "frac", "frac", "above"]
+
+
+def _mid_brac_cases(tier):
+    quick = tier == "quick"
+    cases = []
+    nthr = 8 if quick else 12
+    for i, n in enumerate(_mid_sizes(tier, "brac", 16, 40)):
+        for rep in range(2):
+            how = _pick(MID_CONTAINERS, "bhow", i, rep)
+            if how == "list" and n > 60000:
+                how = "negstride"
+            thr = [[_pick(_BRAC_MODES, "bm", i, rep, q), round(_hu("bu", i, rep, q), 9)] for q in range(nthr)]
+            thr[0][0] = "below-max"      # exactly one sample exceeds (by one ulp)
+            thr[1][0] = "kth"
+            cases.append({"n": int(n), "seed": _sd("brac", i, rep), "kind": _pick(MID_KINDS, "bk", i, rep), "as": how,
+                          "dt": _pick([0.001, 0.002, 0.005, 0.01, 0.02], "bdt", i, rep), "dtv": _pick(DT_FORMS, "bdf", i, rep), "thr": thr,
+                          "k2": int(_pick([-7, -3, -1, 1, 2, 6], "bk2", i, rep)),
+                          "alpha": float((-1 if _hu("bas", i, rep) < 0.5 else 1) * 10 ** (-3 + 6 * _hu("bal", i, rep))), "cost": n})
+    return cases
+
+
+def _mid_brac_enum(tier, shard, nshards):
+    return _deal(_mid_brac_cases(tier), shard, nshards)
+
+
+@enum_clause(CLAUSES, "mid-range-bracketed", _mid_brac_enum,
+             rule="record lengths gen.size_ladder(2000, 300000, 16) + one just above (thorough: to 2 000 000, 40 + 16), two records per length; "
+                  "container, dt form by hash; 8 (thorough 12) thresholds per record from {0, max|a|, the double just below max|a| (one sample "
+                  "exceeds by an ulp), the k-th largest |a| for k = 2..n/3 log-uniform (the exceeding samples are scattered over the record), |a_j| of "
+                  "a hash-chosen sample, the double just below it, U*max|a|, above max|a|}",
+             oracle="as bracketed: first / last |a_i| > thr by exact comparison over the whole record (vectorised), times i*dt (4 eps); none -> 0 and "
+                    "(None, None); deprecated alias; record and threshold scaled by 2^k / a general factor; non-increasing along the sorted thresholds",
+             exhaustive_note="the laddered lengths of the run's VERIF_SEED", quick_shards=4)
+def mid_range_bracketed(case, ctx):
+    n = int(case["n"])
+    a0 = _mid_record(n, case["seed"], case["kind"])
+    arg = _mid_container(a0, case["as"])
+    a = np.array(arg, dtype=float)
+    dt_arg, dt = _dt(case)
+    ctx.cls("kind=" + case["kind"], "as=" + case["as"], "dt=" + case["dtv"], "n>50000" if n > 50000 else "n<=50000")
+    ab = np.abs(a)
+    mx = float(ab.max())
+    srt = None
+    thrs, modes = [], []
+    for mode, u in case["thr"]:
+        if mode == "zero":
+            t = 0.0
+        elif mode == "max":
+            t = mx
+        elif mode == "below-max":
+            t = float(np.nextafter(mx, 0.0))
+        elif mode == "kth":
+            if srt is None:
+                srt = np.sort(ab)
+            k = int(round(math.exp(math.log(2) + u * (math.log(max(3, n // 3)) - math.log(2)))))
+            t = float(srt[n - min(k, n)])
+        elif mode == "sample":
+            t = float(ab[int(u * n)])
+        elif mode == "below-sample":
+            t = float(np.nextafter(ab[int(u * n)], 0.0))
+        elif mode == "frac":
+            t = u * mx
+        else:
+            t = mx * (1.0 + u) + 1e-300
+        thrs.append(t)
+        modes.append(mode)
+    asig = ctx.lib(eqsig.AccSignal, arg, dt_arg)
+    _brac_checks(ctx, asig, a, dt_arg, dt, thrs, modes, int(case["k2"]), float(case["alpha"]))
